@@ -516,6 +516,13 @@ func c11CheckPackets(c c11PktCase) engine.Result {
 									if ok {
 										res.Failf("pes.AlignedPUSI|"+cond+"|reports-match", "stream id %#x pusi=%v payload of %d bytes % x: match reported", id, pusi, L, pay[:min(L, 6)])
 									}
+								case class == c11NoOptional:
+									// these ids have no alignment flag, so whether the helper matches is not judged; but
+									// when it does, "the PES data" is what follows PES_packet_length
+									res.Event("AlignedPUSI-on-id-without-optional-header: match not judged, data judged")
+									if ok && L >= 6 && !bytes.Equal(data, orig[188-L+6:]) {
+										res.Failf("pes.AlignedPUSI|id-without-optional-header|data", "stream id %#x payload %d bytes: a match is reported with %d data bytes, the data after PES_packet_length has %d", id, L, len(data), L-6)
+									}
 								case class != c11Optional:
 									res.Event("AlignedPUSI-on-id-without-optional-header-not-judged")
 								case L < sh.dataAt:
@@ -628,7 +635,7 @@ func init() {
 			},
 			&engine.Enum[c11PktCase]{
 				Name: "packets",
-				Rule: "case = stream_id (all 256); Check builds transport packets: payload length {0 (adaptation field only / payload flag with no room),1..11,14,19,20,176,183,184} (thorough 0..40,100,176,182,183,184) obtained by adaptation-field stuffing or an adaptation field with PCR x PUSI {1,0} x first payload bytes {00 00 01, 00 00 02, 00 01 01, 01 00 01, 00 00 00, 00 00 81} x 12 header shapes (alignment, PTS_DTS_flags, stuffing) x 3 transport headers (PID 0x100 / 0x1FFF with TEI, priority, scrambling / 0); packet.PESHeader succeeds with exactly the payload iff PUSI and >= 4 payload bytes starting 00 00 01; pes.AlignedPUSI never matches otherwise, and for ids with optional header and a header complete in the packet matches iff data_alignment_indicator, returning the bytes after the header; non-trivial = each packet",
+				Rule: "case = stream_id (all 256); Check builds transport packets: payload length {0 (adaptation field only / payload flag with no room),1..11,14,19,20,176,183,184} (thorough 0..40,100,176,182,183,184) obtained by adaptation-field stuffing or an adaptation field with PCR x PUSI {1,0} x first payload bytes {00 00 01, 00 00 02, 00 01 01, 01 00 01, 00 00 00, 00 00 81} x 12 header shapes (alignment, PTS_DTS_flags, stuffing) x 3 transport headers (PID 0x100 / 0x1FFF with TEI, priority, scrambling / 0); packet.PESHeader succeeds with exactly the payload iff PUSI and >= 4 payload bytes starting 00 00 01; pes.AlignedPUSI never matches otherwise, and for ids with optional header and a header complete in the packet matches iff data_alignment_indicator, returning the bytes after the header (ids without optional header: whether it matches is not judged, but a reported match must return the bytes after PES_packet_length); non-trivial = each packet",
 				Gen: func(r *engine.Run, emit func(c11PktCase)) {
 					for id := 0; id < 256; id++ {
 						emit(c11PktCase{id, r.Thorough()})
